@@ -199,10 +199,10 @@ const PLAIN_WORDS: [&str; 15] = [
     "consumo del vector EAMBIENTE", "Vector energético", "id, vector, tipo", "BdC 1", "Caldera", "PV", "ACS", "Equipo de calefacción COP 3", "n_gen=2.5 n_d+e+c=0.88", "Paneles solares térmicos 2m2",
     "Producción fotovoltaica in situ", "Energía entregada", "SISTEMA SECUNDARIO FC_P01_E01  ventiladores", "x", "Demanda anual",
 ];
-const HOSTILE_BITS: [&str; 36] = [
+const HOSTILE_BITS: [&str; 48] = [
     "<", ">", "&", "\"", "'", "\\", "#", ",", ";", ":", "é", "ñ", "€", "日本", "\u{1F600}", "&amp;", "<b>", "]]>", "<!--", "--", "%s",
     "\t", "I&D;", "AT&T;", "&#0;", "&#xZZ;", "&#12", "&lt", "&;", "&amp;amp;", "&quot;x&quot;", "</Comentario>", "<![CDATA[", "?>", "\u{feff}",
-    "\u{fffd}",
+    "\u{fffd}", "[2 uds. de 8 kW]", "rango [35 - 45]", "[ -1, 2 ]", "{\"a\": [1, 2]}", "\"k\": 1,", "[", "]", "{", "}", "\\n", "\\u0000", "a\tb",
 ];
 /// Characters that no XML 1.0 document can contain (counted with the C0 control-character class).
 const CONTROL_BITS: [&str; 8] = ["\u{1}", "\u{8}", "\u{b}", "\u{1f}", "\u{fffe}", "\u{ffff}", "\u{0}", "\u{c}"];
@@ -751,7 +751,7 @@ pub fn gen_evalcfg(rng: &mut Rng, b: &Building, allow_user_file: bool) -> EvalCf
         1 => 1.0,
         _ => (rng.below(11) as f32) / 10.0,
     };
-    let area: f32 = rng.pick(&["1", "2.5", "100", "1234.56", "0.5", "50000"]).parse().unwrap();
+    let area: f32 = rng.pick(&["1", "2.5", "100", "1234.56", "0.5", "50000", "2000", "192"]).parse().unwrap();
     EvalCfg {
         factors,
         red1: if rng.chance(0.2) { Some(gen_factor_triplet(rng)) } else { None },
